@@ -58,6 +58,18 @@ CLAIMED.update({
   design="DESIGN.md §4.C16"),
 })
 
+CLAIMED.update({
+ "C09": dict(
+  text="Full deductive proof of the sorter on the real code: mergeArrays and the bottom-up sortValues (both loops, clamped bounds, array swapping, final copy) leave a permutation of the input for EVERY ranking function "
+       "(multiset counts; each ranker call returns an unconstrained value), terminate (variants on all loops), write nothing outside values[0:len], and yield an ascending result whenever the ranker is a deterministic total preorder "
+       "(run structure via an alignment theory whose lemmas are themselves proved from div/mod by SMT, one by Lean 4 + Mathlib in the thorough tier); ReverseValues reverses exactly; ShuffleValues permutes; "
+       "the Sort/Reverse/Shuffle methods of Array, List and Catalog are proved to have the same effect on their views. Count lemmas (agree, split, extend, swap, reverse) are proved by mechanised induction.",
+  note="Hypotheses: a ranker call terminates normally and does not touch the arrays being sorted; randomizeIndex (crypto/rand) returns a value in [0,size) — trusted, not verified. "
+       "Assumed: align_half in the quick tier (Lean-checked in thorough); 'equal multisets imply a bijection' (perm_bijection) links the two formulations of permutation for Catalog. "
+       "Slices are at most 2^61 long (so width*2 cannot overflow). Trusted: front end, engine, solvers.",
+  design="DESIGN.md §4.C09"),
+})
+
 NOT_YET = {}
 
 TECH = "contract-based deductive verification: weakest-precondition style VCs generated from go/ssa of /repo, contracts in //go:build verif comment files, discharged by z3 5.1 / z3 4.8 / cvc5"
